@@ -73,6 +73,41 @@ def hard_reset():
       s.update(rec[1])
   cfg._PARSE_CONTEXTS[:] = [cfg.ParseContext()]
   reset_scope_manager()
+  release_owned_locks()
+
+
+def held_locks():
+  """Names of module-level locks of gin.config that are held right now (meaningful only at quiescence)."""
+  out = []
+  for k, v in list(vars(cfg).items()):
+    if not hasattr(v, 'release') or not hasattr(v, 'acquire') or isinstance(v, type):
+      continue
+    try:
+      if hasattr(v, 'locked'):
+        held = v.locked()
+      elif hasattr(v, '_is_owned'):
+        held = v._is_owned()
+      else:
+        continue
+    except Exception:  # pylint: disable=broad-except
+      continue
+    if held:
+      out.append(k)
+  return out
+
+
+def release_owned_locks():
+  """Releases every module-level lock of gin.config that is still held (a call that raised while holding one would
+  otherwise poison every later world of this worker process)."""
+  for k in held_locks():
+    v = vars(cfg)[k]
+    try:
+      for _ in range(64):
+        v.release()
+        if k not in held_locks():
+          break
+    except Exception:  # pylint: disable=broad-except
+      pass
 
 
 def reset_scope_manager():
